@@ -118,6 +118,9 @@ def assignments(f, rng, dbx, quick):
         lo, hi = f.raw_bounds()
         for name, k in (("date_min", lo), ("date_max", hi), ("date_mid", rng.randint(lo, hi))):
             yield name, date(1970, 1, 1) + timedelta(days=k), k, "ok"
+        # given by value only (raw_value None): the encoder derives the day count from the date object
+        for name, k in (("date_by_value_min", lo), ("date_by_value_mid", rng.randint(lo, hi)), ("date_by_value_1970", 0 if lo <= 0 <= hi else lo)):
+            yield name, date(1970, 1, 1) + timedelta(days=k), None, "ok"
         yield "date_absent", None, None, "ok"
         yield "date_oversize", None, (1 << bits) + 5, "reject"
         yield "date_negative", None, -3, "reject"
@@ -130,6 +133,11 @@ def assignments(f, rng, dbx, quick):
                 si = int(secs)
                 v = time(si // 3600, (si % 3600) // 60, si % 60)
             yield name, (v if t == "TIME" else secs), secs, "ok"
+        if t == "TIME":
+            # given by value only (a datetime.time, raw_value None): whole seconds, scaled by the field's resolution
+            for name, si in (("time_by_value_midnight", 0), ("time_by_value_mid", rng.randrange(86400)), ("time_by_value_last_second", 86399)):
+                if lo <= Fraction(si) / r <= hi:
+                    yield name, time(si // 3600, (si % 3600) // 60, si % 60), None, "ok"
         yield "time_absent", None, None, "ok"
         yield "time_oversize", None, float(((1 << bits) + 7) * r), "reject"
         if not f.signed:
@@ -261,10 +269,15 @@ def same_value(f, value, raw, bf):
     if t == "RESERVED":
         return bf.value == value, "reserved bits must be identical"
     if t == "DATE":
+        if raw is None and value is not None:
+            return bf.value == value, "the date given must come back"
         if raw is None:
             return bf.raw_value is None and bf.value is None, "absent must stay absent"
         return bf.raw_value == raw, "day count must be identical"
     if t in ("TIME", "DURATION"):
+        if raw is None and value is not None:
+            want = value.hour * 3600 + value.minute * 60 + value.second
+            return bf.raw_value is not None and abs(float(bf.raw_value) - want) <= float(f.res) / 2 * (1 + 1e-9), f"the time given ({want} s) must come back"
         if raw is None:
             return bf.raw_value is None, "absent must stay absent"
         if bf.raw_value is None:
